@@ -15,8 +15,13 @@ def P(t, b):
     return ("P", t, b)
 
 
-def S(b):
-    return ("STR", b)
+def S(b, kind=None):
+    """STRING leaf; kind = required text encoding of the reader/writer ("text" = UTF-8) or None = not checked"""
+    return ("STR", b, kind)
+
+
+def T(b):
+    return S(b, "text")
 
 
 def B(b):
@@ -54,21 +59,21 @@ REQUESTS = {
         S("group"), A(GROUPED, S("<topic>"), A(BYTOPIC, P(I32, "<partition>")))]),
     "encode_consumermetadata_request": ("FindCoordinator", 0, [S("consumer_group")]),
     "encode_join_group_request": ("JoinGroup", 0, [
-        S("payload.group"), P(I32, "payload.session_timeout"), S("payload.member_id"), S("payload.protocol_type"),
+        T("payload.group"), P(I32, "payload.session_timeout"), T("payload.member_id"), T("payload.protocol_type"),
         A("payload.group_protocols", S("<each payload.group_protocols>.protocol_name"),
           B("<each payload.group_protocols>.protocol_metadata"))]),
     "encode_sync_group_request": ("SyncGroup", 0, [
-        S("payload.group"), P(I32, "payload.generation_id"), S("payload.member_id"),
-        A("payload.group_assignment", S("<each payload.group_assignment>.member_id"),
+        T("payload.group"), P(I32, "payload.generation_id"), T("payload.member_id"),
+        A("payload.group_assignment", T("<each payload.group_assignment>.member_id"),
           B("<each payload.group_assignment>.member_metadata"))]),
-    "encode_heartbeat_request": ("Heartbeat", 0, [S("payload.group"), P(I32, "payload.generation_id"), S("payload.member_id")]),
-    "encode_leave_group_request": ("LeaveGroup", 0, [S("payload.group"), S("payload.member_id")]),
+    "encode_heartbeat_request": ("Heartbeat", 0, [T("payload.group"), P(I32, "payload.generation_id"), T("payload.member_id")]),
+    "encode_leave_group_request": ("LeaveGroup", 0, [T("payload.group"), T("payload.member_id")]),
     "encode_api_versions_request": ("ApiVersions", 0, []),
 }
 
 # embedded consumer-protocol blobs (no request header)
 BLOB_ENCODERS = {
-    "encode_join_group_protocol_metadata": [P(I16, "version"), A("subscriptions", S("<each subscriptions>")), B("user_data")],
+    "encode_join_group_protocol_metadata": [P(I16, "version"), A("subscriptions", T("<each subscriptions>")), B("user_data")],
     "encode_sync_group_member_assignment": [
         P(I16, "version"), A("assignments", S("<key assignments>"), A("<value assignments>", P(I32, "<each <value assignments>>"))),
         B("user_data")],
@@ -101,14 +106,14 @@ RESPONSES = {
     "decode_consumermetadata_response": [CORR, P(I16, "ConsumerMetadataResponse.error"), P(I32, "ConsumerMetadataResponse.node_id"),
                                          S("ConsumerMetadataResponse.host"), P(I32, "ConsumerMetadataResponse.port")],
     "decode_join_group_response": [CORR, P(I16, "_JoinGroupResponse.error"), P(I32, "_JoinGroupResponse.generation_id"),
-                                   S("_JoinGroupResponse.group_protocol"), S("_JoinGroupResponse.leader_id"), S("_JoinGroupResponse.member_id"),
-                                   A(None, S("_JoinGroupResponseMember.member_id"), B("_JoinGroupResponseMember.member_metadata"))],
+                                   T("_JoinGroupResponse.group_protocol"), T("_JoinGroupResponse.leader_id"), T("_JoinGroupResponse.member_id"),
+                                   A(None, T("_JoinGroupResponseMember.member_id"), B("_JoinGroupResponseMember.member_metadata"))],
     "decode_sync_group_response": [CORR, P(I16, "_SyncGroupResponse.error"), B("_SyncGroupResponse.member_assignment")],
     "decode_heartbeat_response": [CORR, P(I16, "_HeartbeatResponse.error")],
     "decode_leave_group_response": [CORR, P(I16, "_LeaveGroupResponse.error")],
     "decode_api_versions_response": [CORR, P(I16, "ApiVersionResponse.error_code"),
                                      A(None, P(I16, "ApiVersion.api_key"), P(I16, "ApiVersion.min_version"), P(I16, "ApiVersion.max_version"))],
-    "decode_join_group_protocol_metadata": [P(I16, "_JoinGroupProtocolMetadata.version"), A(None, S("_JoinGroupProtocolMetadata.subscriptions")),
+    "decode_join_group_protocol_metadata": [P(I16, "_JoinGroupProtocolMetadata.version"), A(None, T("_JoinGroupProtocolMetadata.subscriptions")),
                                             B("_JoinGroupProtocolMetadata.user_data")],
     "decode_sync_group_member_assignment": [P(I16, "_SyncGroupMemberAssignment.version"),
                                             A(None, S(None), A(None, P(I32, "_SyncGroupMemberAssignment.assignments"))),
